@@ -126,10 +126,205 @@ def extract(repo: Path) -> dict:
     out["caughtSource"], out["loopShape"] = _describe_source(repo, xp)
     # ---- graphs.BaseNode: which External* classes become strings, when the node's URL is used as it is
     out["nodeStringified"], out["nodeVerbatim"], out["nodeVerbatimSource"] = _probe_node_url(repo, sf, gr)
+    # ---- (round 6) looking up a child of an imported object: the attributes `FortranBase.children` visits, in
+    #      order, SUBLINK_TYPES, and what a fresh object of each ENTITIES class has under these names
+    out["childrenOrder"], out["sublinkTypes"], out["classDefaults"] = _probe_children(xp, sf)
+    # ---- (round 6) the second look at every href of converted text: does it read a *relative* reference from the
+    #      working directory of the process?
+    out["treeProcessorReadsRelative"] = _probe_tree_processor()
+    out["findSkips"] = _probe_find_skips(xp, fp)
+    out["siblingDir"] = _probe_current_path()
     for (n, caught), (n2, ex) in zip(out["fetchErrors"], out["handlerExits"]):
         if n != n2 or caught != (ex != "uncaught"):
             raise LookupError(f"load_external_modules: {n} caught={caught} but handler exit {ex!r}")
     return out
+
+
+# --------------------------------------------------------------------------- probing MetaMarkdown.convert (round 6)
+
+def _probe_current_path() -> str:
+    """the directory `MetaMarkdown.convert(text, context)` makes `[[...]]` references relative to: observed at the
+    moment the link processor asks the project for the entity.  Must be `<output dir>/<Path(url).parent.parent>/<X>`
+    for one fixed name X (returned); anything else is a shape the model does not have."""
+    from ford._markdown import MetaMarkdown
+    seen = []
+
+    class P:
+        def find(self, *a, **k):
+            seen.append(md.current_path)
+            return None
+
+    class Ctx:
+        parent = None
+        name = "ctx"
+        filename = "ctx.f90"
+
+        def __init__(self, url):
+            self.url = url
+
+        def get_url(self):
+            return self.url
+
+        def find_child(self, *a, **k):
+            return None
+
+    base = Path("/probe/out")
+    md = MetaMarkdown(".", base_url=str(base), project=P())
+    want = {"module/m.html": (), "proc/p.html#variable-x": (), "a/b/c/d.html": ("a", "b"), "index.html": ()}
+    names = set()
+    import io
+    from contextlib import redirect_stdout, redirect_stderr
+    for url, pre in want.items():
+        seen.clear()
+        with redirect_stdout(io.StringIO()), redirect_stderr(io.StringIO()):
+            md.reset().convert("[[zz_probe]]", context=Ctx(url))
+        if not seen or seen[0] is None:
+            raise LookupError("MetaMarkdown.convert: no page directory while a reference is resolved")
+        try:
+            rel = Path(seen[0]).relative_to(base).parts
+        except ValueError:
+            raise LookupError(f"MetaMarkdown.convert: page directory {seen[0]} is not below the output directory")
+        if len(rel) != len(pre) + 1 or rel[:-1] != pre:
+            raise LookupError(f"MetaMarkdown.convert: page directory {rel} for the context URL {url!r} is not "
+                              "<Path(url).parent.parent>/<one fixed name>")
+        names.add(rel[-1])
+    if len(names) != 1 or "/" in next(iter(names)) or next(iter(names)) in ("", ".", ".."):
+        raise LookupError(f"MetaMarkdown.convert: the page directory ends in {sorted(names)}")
+    return names.pop()
+
+
+# --------------------------------------------------------------------------- probing Project.find (round 6)
+
+def _probe_find_skips(xp, fp):
+    """which classes of ENTITIES `Project.find` never returns for a bare name: one object per class, alone in the list
+    its class belongs to, on a project that has nothing else"""
+    lt = fp.LINK_TYPES
+    skips = []
+    for k, cls in xp.ENTITIES.items():
+        stub = type("P", (), {})()
+        for c in set(lt.values()) | set(EXT_LISTS):
+            setattr(stub, c, [])
+        o = _make(cls, "zz_probe", "u")
+        getattr(stub, cls._project_list).append(o)
+        try:
+            r = fp.Project.find(stub, "ZZ_Probe")
+        except Exception as e:
+            raise LookupError(f"Project.find cannot be probed ({type(e).__name__}: {e})")
+        if r is None:
+            if cls._project_list in lt.values():
+                skips.append(k)
+        elif r is not o:
+            raise LookupError("Project.find returns something that was not put in")
+    return skips
+
+
+# --------------------------------------------------------------------------- probing the relative-links tree processor
+
+def _probe_tree_processor() -> bool:
+    """`MetaMarkdown.convert` on two plain Markdown links, run in a fresh directory T with the output directory
+    T/out and the page directory T/out/other: an absolute path below the output directory must come out relative
+    to the page (`../thing` - what the processor is for); a relative reference that, *read from the working
+    directory*, lies below the output directory either comes out rewritten (True) or as it was written (False)."""
+    import os
+    import re as _re
+    import tempfile
+    from ford._markdown import MetaMarkdown
+    cwd = os.getcwd()
+    with tempfile.TemporaryDirectory() as t:
+        T = Path(t).resolve()
+        try:
+            os.chdir(T)
+            md = MetaMarkdown(base_url=T / "out")
+            hrefs = []
+            for text in (f"[x]({T / 'out' / 'thing'})", "[x](out/sub/page.html)"):
+                m = _re.search(r'href="([^"]*)"', md.reset().convert(text, path=T / "out" / "other"))
+                hrefs.append(m.group(1) if m else None)
+        finally:
+            os.chdir(cwd)
+    if hrefs[0] != "../thing":
+        raise LookupError(f"relative-links tree processor: an absolute path below the output directory gives {hrefs[0]!r}")
+    if hrefs[1] == "../sub/page.html":
+        return True
+    if hrefs[1] == "out/sub/page.html":
+        return False
+    raise LookupError(f"relative-links tree processor: a relative reference gives {hrefs[1]!r}")
+
+
+# --------------------------------------------------------------------------- probing FortranBase.children (round 6)
+
+def _probe_children(xp, sf):
+    """The list attributes `FortranBase.children` chains, in the order it visits them - observed, not read: the
+    property is evaluated on an object that answers *every* attribute it is asked for with a one-element list
+    holding a marker entity named after the attribute.  Markers that come out are list attributes (in order); a
+    list that comes out whole is one of the single-object children (`constructor`, ...).  Then SUBLINK_TYPES as the
+    module holds it, and - per ENTITIES class - which of these attributes a fresh object has and of what shape."""
+    base = getattr(sf, "FortranBase", None)
+    prop = getattr(base, "children", None)
+    if not isinstance(prop, property):
+        raise LookupError("FortranBase.children is not a property")
+
+    class Marker(base):
+        def __init__(self, name):
+            self.name = name
+
+    asked = []
+
+    class Probe(base):
+        def __init__(self):
+            pass
+
+        def __getattr__(self, attr):
+            if attr.startswith("__"):
+                raise AttributeError(attr)
+            asked.append(attr)
+            return [Marker(attr)]
+
+    try:
+        got = list(Probe().children)
+    except Exception as e:
+        raise LookupError(f"FortranBase.children cannot be probed ({type(e).__name__}: {e})")
+    order, single = [], []
+    for x in got:
+        if isinstance(x, Marker):
+            order.append(x.name)
+        elif isinstance(x, list) and len(x) == 1 and isinstance(x[0], Marker):
+            single.append(x[0].name)
+        else:
+            raise LookupError("FortranBase.children yields something that was not put in")
+    if not order or len(set(order)) != len(order):
+        raise LookupError("FortranBase.children: no list attributes / an attribute visited twice")
+    sub = getattr(sf, "SUBLINK_TYPES", None)
+    if not (isinstance(sub, dict) and sub and all(isinstance(k, str) and isinstance(v, str) for k, v in sub.items())):
+        raise LookupError("sourceform.SUBLINK_TYPES is not a dict of strings")
+    # `find_child` must be the mechanism the model has: kind -> SUBLINK_TYPES -> hasattr -> list(...), else children
+    universe = list(dict.fromkeys(order + single + list(sub.values())))
+    defaults = []
+    for k, cls in xp.ENTITIES.items():
+        o = _make(cls, "probe", "u")
+        row = []
+        for a in universe:
+            if not hasattr(o, a):
+                continue
+            v = getattr(o, a)
+            if a in single:
+                if v:
+                    raise LookupError(f"{cls.__name__}.{a}: a single-object child of an imported object is not modelled")
+                continue
+            if isinstance(v, (list, tuple)) and not v:
+                row.append((a, "list"))
+            elif isinstance(v, dict) and not v:
+                row.append((a, "dict"))
+            elif isinstance(v, str):
+                row.append((a, "str"))
+            elif v is None or isinstance(v, (bool, int, float)):
+                row.append((a, "scalar"))
+            else:
+                raise LookupError(f"{cls.__name__}.{a}: default value {v!r} of an imported object is not modelled")
+        defaults.append((k, row))
+    for a in single:
+        if a in xp.ATTRIBUTES:
+            raise LookupError(f"ATTRIBUTES carries the single-object child {a!r}: not modelled")
+    return order, list(sub.items()), defaults
 
 
 # --------------------------------------------------------------------------- probing load_external_modules
@@ -575,6 +770,30 @@ def render(t: dict) -> str:
         "/-- `graphs.BaseNode.__init__`: the node's URL is used as it is when this holds, otherwise it is prefixed with",
         f"    `graph_data.parent_dir` ({t['nodeVerbatimSource']}) -/",
         f"def nodeVerbatim : NodeCond := {_lean_cond(t['nodeVerbatim'])}",
+        "/-- (round 6) `MetaMarkdown.convert`: a `[[...]]` reference in the text of an entity is made relative to",
+        "    `<output dir>/<Path(url).parent.parent>/<this name>` (probed on four context URLs) -/",
+        f"def siblingDir : Str := {_lean_str(t['siblingDir'])} /- {t['siblingDir']} -/",
+        "/-- (round 6) the keys of ENTITIES whose objects `Project.find` passes over when it looks for a bare name although",
+        "    their project list is searched (probed: one object per class on an otherwise empty project) -/",
+        "def findSkips : List Str := [" + ", ".join(f"{_lean_str(k)} /- {k} -/" for k in t["findSkips"]) + "]",
+        "/-- (round 6) `RelativeLinksTreeProcessor._fix_attrib`: is a relative `href` read as a path from the working",
+        "    directory of the process (probed; `false` with fixes/C16-relative-links-only-absolute-paths.diff) -/",
+        f"def treeProcessorReadsRelative : Bool := {'true' if t['treeProcessorReadsRelative'] else 'false'}",
+        "/-- (round 6) the list attributes `FortranBase.children` chains, in the order it visits them (probed) -/",
+        "def childrenOrder : List Str := [",
+        ",\n".join(f"  {_lean_str(a)} /- {a} -/" for a in t["childrenOrder"]),
+        "]",
+        "/-- (round 6) `sourceform.SUBLINK_TYPES`: kind of a child in `[[parent:child(kind)]]` -> attribute searched -/",
+        "def sublinkTypes : List (Str × Str) := [",
+        ",\n".join(f"  ({_lean_str(k)}, {_lean_str(v)}) /- {k} -> {v} -/" for k, v in t["sublinkTypes"]),
+        "]",
+        "/-- (round 6) per key of ENTITIES: which of the attributes above a freshly made object of the class has before",
+        "    `dict2obj` sets anything, and the shape of the value (`list` / `dict` / `str`: empty, iterable; `scalar`) -/",
+        "def classDefaults : List (Str × List (Str × Str)) := [",
+        ",\n".join("  (%s, [%s]) /- %s: %s -/" % (_lean_str(k), ", ".join(f"({_lean_str(a)}, {_lean_str(sh)})" for a, sh in row),
+                                                 k, ", ".join(f"{a}={sh}" for a, sh in row) or "-")
+                   for k, row in t["classDefaults"]),
+        "]",
         "end Ford.Ext.Gen",
         "",
     ]
